@@ -410,6 +410,16 @@ def belongs(ob, prop, unit):
     return prop in unit["props"]
 
 
+def kf_matches(k, ob, uname):
+    """does known-finding entry k name this failing obligation?"""
+    if k.get("unit") not in (None, uname, uname.split("#")[0]):
+        return False
+    if k["obligation"] in ob["tags"] or k["obligation"] == ob["name"]:
+        return True
+    # consequences of the same defect that surface as generic safety checks (listed by description; only with an explicit unit)
+    return bool(k.get("unit")) and any(d in ob["description"] for d in k.get("also_descriptions", []))
+
+
 def load_known():
     p = os.path.join(VERIF, "known_findings.json")
     if not os.path.exists(p):
@@ -475,9 +485,7 @@ def _main(args, tier, seed, prop, t_start):
     kf_jobs = []
     for uname, obs in byunit.items():
         for k in known:
-            if k.get("unit") not in (None, uname):
-                continue
-            if any(k["obligation"] in ob["tags"] or k["obligation"] == ob["name"] for ob in obs):
+            if any(kf_matches(k, ob, uname) for ob in obs):
                 if not any(j[0] == uname and j[1] == k["exclude_define"] for j in kf_jobs):
                     kf_jobs.append((uname, k["exclude_define"]))
     with ThreadPoolExecutor(max_workers=args.j) as ex:
@@ -487,9 +495,7 @@ def _main(args, tier, seed, prop, t_start):
     for uname, obs in byunit.items():
         remaining = list(obs)
         for k in known:
-            if k.get("unit") not in (None, uname):
-                continue
-            hit = [ob for ob in remaining if k["obligation"] in ob["tags"] or k["obligation"] == ob["name"]]
+            hit = [ob for ob in remaining if kf_matches(k, ob, uname)]
             if not hit:
                 continue
             r2 = kf_map[(uname, k["exclude_define"])]
